@@ -214,6 +214,8 @@ def history_search(case):
             events += [("set",) + e for e in SET_EVENTS["batched"]]
         if name in M.SPARSE:
             events += [("set",) + e for e in SET_EVENTS["sparse"]] + [("path1",), ("path_bad",)]
+            events += [("set", "groups", None if m0.groups is not None else [[0, 1]]), ("set", "dynamic", not m0.dynamic)] if hasattr(m0, "groups") and name != "SparseLinearMI" else \
+                      [("set", "groups", None if getattr(m0, "groups", None) is not None else [[0, 1]])]
         if hasattr(m0, "ovo"):
             events.append(("set", "ovo", not m0.ovo))
         if hasattr(m0, "kernel") and y1 is None:
